@@ -70,7 +70,7 @@ func c39Lookup(name string) e2.RunFn {
 		wroteAll := false
 		written := 0
 		var xdone bool
-		res := vsched.Run(vsched.Options{Prefix: prefix, MaxSteps: 50000}, func() {
+		res := vsched.Run(vsched.Options{Prefix: prefix, MaxSteps: 50000, KeepLog: debugLog}, func() {
 			vsched.GoNamed("writer", false, func() {
 				for _, c := range chunks {
 					n, err := A.Write(c)
@@ -89,6 +89,9 @@ func c39Lookup(name string) e2.RunFn {
 				vsched.GoNamed("reader", false, func() {
 					buf := make([]byte, rbuf)
 					for {
+						if kv["x"] == "exact" && len(got) >= len(stream) {
+							return // an application that knows the message length stops here
+						}
 						n, err := B.Read(buf)
 						got = append(got, buf[:n]...)
 						if err != nil {
@@ -127,6 +130,12 @@ func c39Lookup(name string) e2.RunFn {
 					x.Violation = fmt.Sprintf("writer wrote %q and closed: reader got %q then %v (writer error %v)", stream, got, rerr, werr)
 				}
 			}
+		case "exact":
+			// nobody closes, no deadline: the reader must receive exactly what was written
+			// (a lost wake-up shows as a deadlock above)
+			if string(got) != string(stream) || rerr != nil || werr != nil || !wroteAll {
+				x.Violation = fmt.Sprintf("writer wrote %q (err %v), reader expecting %d bytes got %q (err %v)", stream, werr, len(stream), got, rerr)
+			}
 		case "closeR":
 			// the reader's own end was closed: its read must fail (not EOF-as-success with missing data is fine too?)
 			if rerr == nil {
@@ -152,6 +161,8 @@ func c39Lookup(name string) e2.RunFn {
 			// nobody closes: the reader can only end through the deadline
 			if !isTimeout(rerr) {
 				x.Violation = fmt.Sprintf("reader with a deadline ended with %v, want a timeout", rerr)
+			} else if wroteAll && string(got) != string(stream) {
+				x.Violation = fmt.Sprintf("all writes succeeded (%q) and the reader kept reading until its deadline, but it got only %q", stream, got)
 			}
 			if wroteAll && string(got) != string(stream) && len(stream) <= capN+len(got) {
 				// everything that was written fits: data written before the timeout must have been readable
@@ -168,7 +179,7 @@ func c39Lookup(name string) e2.RunFn {
 
 func c39Scenarios(thorough bool) []string {
 	caps := []int{1, 2}
-	ws := []string{"2", "1,1", "2,1"}
+	ws := []string{"2", "1,1", "2,1", "1,2"}
 	rs := []int{1, 2}
 	if thorough {
 		caps = []int{1, 2, 3}
@@ -180,6 +191,7 @@ func c39Scenarios(thorough bool) []string {
 		for _, w := range ws {
 			for _, r := range rs {
 				out = append(out, fmt.Sprintf("cap=%d;w=%s;r=%d;x=none;wclose=1", c, w, r))
+				out = append(out, fmt.Sprintf("cap=%d;w=%s;r=%d;x=exact;wclose=0", c, w, r))
 				out = append(out, fmt.Sprintf("cap=%d;w=%s;r=%d;x=closeR;wclose=1", c, w, r))
 				out = append(out, fmt.Sprintf("cap=%d;w=%s;r=%d;x=closeW;wclose=0", c, w, r))
 				out = append(out, fmt.Sprintf("cap=%d;w=%s;r=%d;x=rdl;wclose=0", c, w, r))
